@@ -33,4 +33,6 @@ def run(check):
     from ..rules_classes import rule_eval_operand_is_text, rule_eq_reflexive
     check.run_rule('C14.R7', lambda c: rule_eval_operand_is_text(c, 'C14.R7'))
     check.run_rule('C14.R8', lambda c: rule_eq_reflexive(c, 'C14.R8'))
+    from ..rules_classes import rule_replace_returns_fresh
+    check.run_rule('C14.R3c', lambda c: rule_replace_returns_fresh(c, 'C14.R3'))
     check.run_rule('C14.R4', lambda c: rule_nothing_else_overridden(c, 'C14.R4'))
